@@ -256,6 +256,31 @@ pub fn job_set() -> Vec<Job> {
         j.files[0].1 += "#bankdef extra\n{\n    #addr 0x9000\n    #mirror 2\n    #readonly\n    #shadow 1\n    #zz 3\n    #yy\n}\n";
         v.push(j);
     }
+    // two projects that include the same library file (same name, same text) at different positions of their file
+    // tables, and fail inside one of the library's rules: the diagnostic points into the library file of *this* project
+    {
+        let lib = "#ruledef lib\n{\n    lda #{v: u8} => 0xa9 @ v\n    lda {a: u16} => 0xad @ a\n}\n";
+        let argv: Vec<String> = ["main.asm", "-f", "annotated", "-o", "out.txt"].iter().map(|s| s.to_string()).collect();
+        v.push(Job {
+            name: "library-error-a".into(),
+            family: "library-error".into(),
+            expect: "failure".into(),
+            files: vec![("main.asm".into(), "#include \"<std>/lib.asm\"\nlda #0x12\nlda #0x1ff\n".into()), ("<std>/lib.asm".into(), lib.into())],
+            argv: argv.clone(),
+        });
+        v.push(Job {
+            name: "library-error-b".into(),
+            family: "library-error".into(),
+            expect: "failure".into(),
+            files: vec![
+                ("main.asm".into(), "#include \"pre.asm\"\n#include \"more.asm\"\n#include \"<std>/lib.asm\"\nlda #0x12\nlda #0x1ff\n".into()),
+                ("pre.asm".into(), "; a file of this project\nk0 = 1\nk1 = 2\nk2 = 3\nk3 = 4\nk4 = 5\nk5 = 6\nk6 = 7\nk7 = 8\n".into()),
+                ("more.asm".into(), "; another one\nm0 = 1\nm1 = 2\nm2 = 3\nm3 = 4\nm4 = 5\nm5 = 6\nm6 = 7\nm7 = 8\n".into()),
+                ("<std>/lib.asm".into(), lib.into()),
+            ],
+            argv,
+        });
+    }
     // several root files on one command line: they are assembled in the order given
     {
         let mut j = job("several-roots", "several-roots", "success", 0, 5, 0, 0, 0, &[]);
@@ -713,6 +738,9 @@ fn real_process(scratch: &Scratch, bin: &str, job: &Job, tag: &str) -> Result<Pr
     let dir = scratch.dir.join(format!("run-{}-{}", job.name, tag));
     std::fs::create_dir_all(&dir).map_err(|e| format!("mkdir: {}", e))?;
     for (n, c) in &job.files {
+        if let Some(parent) = dir.join(n).parent() {
+            std::fs::create_dir_all(parent).map_err(|e| format!("mkdir: {}", e))?;
+        }
         std::fs::write(dir.join(n), c).map_err(|e| format!("write input: {}", e))?;
     }
     let out = std::process::Command::new(bin)
